@@ -36,7 +36,7 @@ func init() {
 		Real:     []string{"seehuhn.de/go/pdf DecodeStream, GetFilters, MakeFilter, all filters and internal codecs incl. JPEG and JBIG2 decoders (working tree)"},
 		Stub:     []string{"Getter (in-memory object table incl. cycles)", "source delivery (simio)", "memory budget argument", "consumer (early close)"},
 		Quick:    core.Budget{Runs: 120000, Secs: 150},
-		Thorough: core.Budget{Runs: 5000000, Secs: 1500},
+		Thorough: core.Budget{Runs: 5000000, Secs: 900},
 		Run:      Run,
 		Corners:  corners,
 	})
